@@ -133,6 +133,8 @@ TARGETS = [
     ("probe_new", "new", "nomt/src/bitbox/mod.rs",
      {"impl": "ProbeSequence", "types_from": ["nomt/src/bitbox/meta_map.rs"], "extern_lets": {"hash": ("hash_page_id(page_id,seed)", "hash", "u64")}}),
     ("pd_join", "join", "nomt/src/page_diff.rs", {"impl": "PageDiff"}),
+    # a nested loop: the outer `for byte in 0..32` is an auxiliary recursion, the inner `for bit in 0..8` (literal range) is unrolled
+    ("prefix_len", "prefix_len", "nomt/src/beatree/ops/bit_ops.rs", {"aliases": {"Key": "Vec<u8>"}, "hints": {"mask": "u8"}}),
 ]
 
 WIDTH = {"usize": 64, "u64": 64, "u32": 32, "u16": 16, "u8": 8, "bool": 0}
@@ -761,9 +763,10 @@ class Parser:
 class TypeCtx:
     """struct and enum definitions of the files a target may look into (its own file first, then `types_from`)"""
 
-    def __init__(self, rels, what, opaque=()):
+    def __init__(self, rels, what, opaque=(), aliases=None):
         self.what = what
         self.opaque = tuple(opaque)
+        self.aliases = dict(aliases or {})
         self.structs, self.enums = {}, {}
         for rel in rels:
             text = GC.read(rel)
@@ -848,6 +851,8 @@ class TypeCtx:
             n = t[1]
             if n in self.opaque:
                 return ("opaque", n)
+            if n in self.aliases:
+                return self.value_ty(self.parse_ty(self.aliases[n]))
             if n in self.enums:
                 if self.enums[n][1] is None:
                     raise TrError(f"{self.what}: enum `{n}` has struct-like variants — outside the translated subset")
@@ -1345,7 +1350,9 @@ class Tr:
             return (f"(decide ({ta} {lop if lop not in ('==', '!=') else {'==': '=', '!=': '≠'}[lop]} {tb}))", "bool", pa + pb)
         if op in ("<<", ">>"):
             ta, tya, pa = self.expr(a, env, want)
-            tb, tyb, pb = self.expr(b, env, "u32")
+            tb, tyb, pb = self.expr(b, env, None)          # the amount may have any integer type
+            if tyb is None:
+                tb, tyb, pb = self.expr(b, env, "u32")
             if tya is None:
                 raise TrError(f"{self.what}: shift of an untyped literal")
             w = WIDTH[tya]
@@ -1947,7 +1954,28 @@ class Tr:
         if self.valblock:
             raise TrError(f"{self.what}: loop inside a block in expression position is outside the translated subset")
         if self.loops:
-            raise TrError(f"{self.what}: nested loops are outside the translated subset")
+            # a loop INSIDE a loop: only `for` over a literal range of at most 64 iterations, which is UNROLLED (the index a literal in
+            # each copy); it may leave through a labelled `break` / `continue` of the enclosing loop or a `return`, not through its own
+            if not (lo[0] == "lit" and hi[0] == "lit" and 0 <= hi[1] - lo[1] <= 64):
+                raise TrError(f"{self.what}: nested loops are outside the translated subset (only a `for` over a literal range of ≤ 64 iterations is unrolled)")
+            bad = []
+
+            def look(n):
+                if n and n[0] in ("loop", "for"):
+                    bad.append("a loop inside the unrolled loop")
+                if n and n[0] in ("break", "continue") and (n[1] is None or n[1] == label):
+                    bad.append(f"`{n[0]}` of the unrolled loop itself")
+                return True
+            walk(body, look)
+            if bad:
+                raise TrError(f"{self.what}: {bad[0]} is outside the translated subset")
+            ks = list(range(lo[1], hi[1]))
+            if rev:
+                ks.reverse()
+            unrolled = []
+            for kx in ks:
+                unrolled += [("let", x, None, ("lit", kx, lo[2] or hi[2] or "usize"))] + list(body)
+            return self.stmts(unrolled + list(rest), env, ret, tys)
         tlo, tylo, plo = self.expr(lo, env, "usize")
         thi, tyhi, phi = self.expr(hi, env, tylo or "usize")
         ity = tylo or tyhi or "usize"
@@ -2112,7 +2140,7 @@ def translate(target, fns, emitted_enums):
     for pat in spec.get("uses", []):
         if not re.search(pat, GC.read(rel)):
             raise TrError(f"{what}: the import `{pat}` this translation relies on is gone from {rel}")
-    types = TypeCtx([rel] + spec.get("types_from", []), what, spec.get("opaque", ()))
+    types = TypeCtx([rel] + spec.get("types_from", []), what, spec.get("opaque", ()), spec.get("aliases"))
     global CUR_TYPES
     CUR_TYPES = types
     parser = Parser(lex(src, what), what, impl)
